@@ -44,8 +44,8 @@ class HTTPMovedPermanently(HTTPStatus):
     """
 
     def __init__(self, location: str, headers: Optional[Headers] = None) -> None:
-        if headers is None:
-            headers = {}
+        # NOTE: Never write into the caller's own mapping.
+        headers = {} if headers is None else dict(headers)
         headers.setdefault('location', location)
 
         super(HTTPMovedPermanently, self).__init__(falcon.HTTP_301, headers)
@@ -73,8 +73,8 @@ class HTTPFound(HTTPStatus):
     """
 
     def __init__(self, location: str, headers: Optional[Headers] = None) -> None:
-        if headers is None:
-            headers = {}
+        # NOTE: Never write into the caller's own mapping.
+        headers = {} if headers is None else dict(headers)
         headers.setdefault('location', location)
 
         super(HTTPFound, self).__init__(falcon.HTTP_302, headers)
@@ -107,8 +107,8 @@ class HTTPSeeOther(HTTPStatus):
     """
 
     def __init__(self, location: str, headers: Optional[Headers] = None) -> None:
-        if headers is None:
-            headers = {}
+        # NOTE: Never write into the caller's own mapping.
+        headers = {} if headers is None else dict(headers)
         headers.setdefault('location', location)
 
         super(HTTPSeeOther, self).__init__(falcon.HTTP_303, headers)
@@ -136,8 +136,8 @@ class HTTPTemporaryRedirect(HTTPStatus):
     """
 
     def __init__(self, location: str, headers: Optional[Headers] = None) -> None:
-        if headers is None:
-            headers = {}
+        # NOTE: Never write into the caller's own mapping.
+        headers = {} if headers is None else dict(headers)
         headers.setdefault('location', location)
 
         super(HTTPTemporaryRedirect, self).__init__(falcon.HTTP_307, headers)
@@ -162,8 +162,8 @@ class HTTPPermanentRedirect(HTTPStatus):
     """
 
     def __init__(self, location: str, headers: Optional[Headers] = None) -> None:
-        if headers is None:
-            headers = {}
+        # NOTE: Never write into the caller's own mapping.
+        headers = {} if headers is None else dict(headers)
         headers.setdefault('location', location)
 
         super(HTTPPermanentRedirect, self).__init__(falcon.HTTP_308, headers)
